@@ -162,12 +162,14 @@ class Interp(object):
         self.called = set()
         self.trace = []
         self.asm_obj = None
+        self.cfg = None
 
     # ------------------------------------------------------------------ calls
-    def call(self, fn, args=(), kwargs=None):
+    def call(self, fn, args=(), kwargs=None, body=False):
+        """body=True: interpret the body of fn even if a stub (its own contract, used for recursive calls) is registered"""
         kwargs = kwargs or {}
         # stubs first
-        if isinstance(fn, (types.FunctionType, types.BuiltinFunctionType, type)) or hasattr(fn, '__qualname__'):
+        if not body and (isinstance(fn, (types.FunctionType, types.BuiltinFunctionType, type)) or hasattr(fn, '__qualname__')):
             q = qualname(fn)
             st = self.stubs.get(q)
             if st is not None:
@@ -814,6 +816,9 @@ class Interp(object):
         return a == b
 
     def contains(self, cont, item):
+        h = getattr(cont, '_pyvc_contains', None)
+        if h is not None:
+            return h(item)
         if isinstance(cont, Sym):
             if cont.kind == 'str':
                 return sym.wrap(z3.Contains(cont.e, self.str_expr(item)))
